@@ -1,4 +1,4 @@
-from ast import Attribute, Subscript, Load, NodeVisitor, Name as AstName
+from ast import Attribute, Subscript, Load, NodeVisitor, Name as AstName, Lambda, And, iter_child_nodes
 
 from .compat import PY2
 from .scope import FuncScope, Flow, SourceScope, ClassScope, get_first_body_node_loc
@@ -10,6 +10,11 @@ if PY2:
 else:
     from ast import Starred
     UNSUPPORTED_ASSIGMENTS = Subscript, Starred
+
+try:
+    from ast import NamedExpr
+except ImportError:  # before 3.8
+    NamedExpr = ()  # type: ignore[misc,assignment]
 
 
 if False:
@@ -45,6 +50,32 @@ def body_loc(body):
     # type: (list[ast.stmt]) -> tuple[int, int]
     """Position from which a block is entered (decorators of its first statement included)"""
     return get_first_body_node_loc(body) or np(body[0])
+
+
+def binds_names(node):
+    # type: (ast.AST) -> bool
+    """Does evaluating the expression bind a name of the scope it is in?"""
+    todo = [node]
+    while todo:
+        n = todo.pop()
+        if isinstance(n, NamedExpr):
+            return True
+        if not isinstance(n, Lambda):
+            todo.extend(iter_child_nodes(n))
+    return False
+
+
+def test_outcomes(test, flow):
+    # type: (ast.expr, Flow) -> tuple[Flow, Flow]
+    """Regions a condition ends in when it is true and when it is false"""
+    all_flow = getattr(test, 'all_flow', None)
+    if all_flow is not None:
+        # a chain of operands: 'and' is true, 'or' is false only when every
+        # operand was evaluated
+        if isinstance(test.op, And):  # type: ignore[attr-defined]
+            return all_flow, flow
+        return flow, all_flow
+    return flow, flow
 
 
 def marked_flow(scope):
@@ -150,9 +181,9 @@ class extract_visitor(NodeVisitor):
     def visit_If(self, node):
         # type: (ast.If) -> None
         self.visit(node.test)
-        cur = self.flow
-        body = self.visit_in_flow(node.body, self.make_flow('if', [cur]))
-        orelse = self.visit_in_flow(node.orelse, self.make_flow('else', [cur]))
+        then, other = test_outcomes(node.test, self.flow)
+        body = self.visit_in_flow(node.body, self.make_flow('if', [then]))
+        orelse = self.visit_in_flow(node.orelse, self.make_flow('else', [other]))
         self.flow = self.make_flow('join', [body, orelse])
         self.flow.scope.flow = self.flow
 
@@ -189,12 +220,13 @@ class extract_visitor(NodeVisitor):
         test_start = self.make_flow('while-test', [cur])
         test = self.visit_in_flow(node.test, test_start)
 
-        body_start = self.make_flow('while', [test])
+        then, other = test_outcomes(node.test, test)
+        body_start = self.make_flow('while', [then])
         body = self.visit_in_flow(node.body, body_start)
         test_start.loop(body)
 
         orelse = self.visit_in_flow(node.orelse,
-                                    self.make_flow('while-else', [test]))
+                                    self.make_flow('while-else', [other]))
 
         self.flow = self.make_flow('join', [orelse])
         self.flow.scope.flow = self.flow
@@ -422,8 +454,34 @@ class extract_visitor(NodeVisitor):
                 for n in bound:
                     n.location = np(node)
                 flow._names.sort()
-        self.visit(node.body)
-        self.visit(node.orelse)
+        if (binds_names(node.body) or binds_names(node.orelse)
+                or getattr(node.test, 'all_flow', None) is not None):
+            # only one of the two is evaluated
+            then, other = test_outcomes(node.test, self.flow)
+            body = self.visit_in_flow(node.body, self.make_flow('ifexp', [then]))
+            orelse = self.visit_in_flow(node.orelse, self.make_flow('ifexp-else', [other]))
+            self.flow = self.make_flow('join', [body, orelse])
+            self.flow.scope.flow = self.flow
+        else:
+            self.visit(node.body)
+            self.visit(node.orelse)
+
+    def visit_BoolOp(self, node):
+        # type: (ast.BoolOp) -> None
+        self.visit(node.values[0])
+        if not any(binds_names(v) for v in node.values[1:]):
+            for v in node.values[1:]:
+                self.visit(v)
+            return
+
+        # an operand is evaluated only when the ones before it do not decide
+        # the result: what it binds is bound on some paths only
+        ends = [self.flow]
+        for v in node.values[1:]:
+            ends.append(self.visit_in_flow(v, self.make_flow('bool', [ends[-1]])))
+        self.flow = self.make_flow('join', ends)
+        self.flow.scope.flow = self.flow
+        node.all_flow = ends[-1]  # type: ignore[attr-defined]
 
     def visit_NamedExpr(self, node):
         # type: (ast.NamedExpr) -> None
